@@ -276,7 +276,14 @@ ModEv ==
                !.mustReject = (known /\ ~ModMustReject(p, u, req) /\ RemovesKnown(ApplyUpdates(ApplyCreates(s0, req, EmptyFn, allocAddr, cfg, PfdOf(p)), req, allocAddr, cfg, PfdOf(p)), req)),
                !.hdrSeid = (known => m.hasSeid /\ m.seid = s1.cp),
                !.envelope = (known => ReqInEnvelope(s0, req)),
-               !.markers = (known => AsSet(e.markers) = EndMarkersDue(s0, req, cfg) /\ Len(e.markers) = Cardinality(EndMarkersDue(s0, req, cfg)))]
+               !.markers = (known =>
+                  /\ {[peer |-> e.markers[i].peer, teid |-> e.markers[i].teid, src |-> e.markers[i].src] : i \in 1..Len(e.markers)}
+                       = EndMarkersDue(s0, req, cfg)
+                  /\ Len(e.markers) = Cardinality(EndMarkersDue(s0, req, cfg))      \* exactly one per rule
+                  /\ \A i \in 1..Len(e.markers) :
+                        /\ e.markers[i].ok /\ e.markers[i].gtpType = 254              \* a GTP-U End Marker ...
+                        /\ e.markers[i].sport = 2152 /\ e.markers[i].dport = 2152     \* ... UDP 2152 -> 2152
+                        /\ e.markers[i].afterProg)]                                  \* ... after the new rule was programmed
        ELSE [common EXCEPT
                !.hdrSeid = (Answered(e) /\ ~known => m.seid = "zero"),
                !.writesNothing = (Answered(e) /\ ~known => e.cmds = cmds),
